@@ -93,6 +93,52 @@ impl Perm {
         }
         Perm::Table(table)
     }
+    /// swap the numbers of sibling items (two fields of one struct / variant, two variants of one
+    /// enum), preferring siblings whose attributes differ: whatever is remembered per item number
+    /// (attributes, skip status, kind) must follow the item, not the number
+    fn siblings(doc: &Value, rng: &mut Rng, pairs: usize) -> Perm {
+        fn groups(v: &Value, out: &mut Vec<Vec<u64>>) {
+            match v {
+                Value::Object(m) => {
+                    for (k, x) in m {
+                        if k == "fields" || k == "variants" {
+                            if let Some(a) = x.as_array() {
+                                let ids: Vec<u64> = a.iter().filter_map(|i| i.as_u64()).collect();
+                                if ids.len() >= 2 {
+                                    out.push(ids);
+                                }
+                            }
+                        }
+                        groups(x, out);
+                    }
+                }
+                Value::Array(a) => a.iter().for_each(|x| groups(x, out)),
+                _ => {}
+            }
+        }
+        let mut gs = vec![];
+        if let Some(index) = doc.get("index") {
+            groups(index, &mut gs);
+        }
+        gs.sort();
+        if gs.is_empty() {
+            return Perm::Identity;
+        }
+        let attrs = |id: u64| doc["index"].get(id.to_string()).map(|i| i["attrs"].to_string()).unwrap_or_default();
+        let differing: Vec<&Vec<u64>> = gs.iter().filter(|g| g.iter().any(|i| attrs(*i) != attrs(g[0]))).collect();
+        let mut table: HashMap<u64, u64> = HashMap::new();
+        for n in 0..pairs {
+            let g: &Vec<u64> = if !differing.is_empty() && n % 2 == 0 { differing[rng.usize_below(differing.len())] } else { &gs[rng.usize_below(gs.len())] };
+            let x = *rng.pick(g);
+            let y = *rng.pick(g);
+            if x == y || table.contains_key(&x) || table.contains_key(&y) {
+                continue;
+            }
+            table.insert(x, y);
+            table.insert(y, x);
+        }
+        Perm::Table(table)
+    }
     fn identity() -> Perm {
         Perm::Identity
     }
@@ -369,7 +415,7 @@ fn main() {
     };
     let traced = traced_protocol_registry();
     // transformations per description (all workers together); worker w takes t = w, w + W, ...
-    let per_example = args.budget.unwrap_or(if args.thorough() { 480 } else { 12 });
+    let per_example = args.budget.unwrap_or(if args.thorough() { 480 } else { 15 });
     let seed = args.worker_seed();
     for (ei, example) in EXAMPLES.iter().enumerate() {
         wd.begin(|| json!({"lane": "clilab", "example": example, "phase": "baseline"}).to_string());
@@ -471,16 +517,23 @@ fn main() {
         for t in (0..per_example).filter(|t| t % args.workers == args.worker) {
             let mut rng = Rng::derive(args.seed, ei as u64, t);
             let mut perms = HashMap::new();
-            let renumbered = t % 4 != 0;
+            let renumbered = t % 5 != 0;
             if renumbered {
                 // spread-out numbers, dense numbers, or forced collisions between the type items of the
                 // crates in this example's closure
-                let style = t % 4;
+                let style = t % 5;
                 let closure: Vec<&str> = base_order.iter().map(|s| s.as_str()).collect();
                 for n in EXAMPLES.iter().chain(LIBS.iter()) {
                     let p = match style {
                         1 => Perm::affine(&mut rng),
                         2 => Perm::dense(&texts.raw[*n], &mut rng),
+                        4 => {
+                            if closure.contains(n) {
+                                Perm::siblings(&texts.raw[*n], &mut rng, 6)
+                            } else {
+                                Perm::identity()
+                            }
+                        }
                         _ => {
                             if closure.contains(n) {
                                 let others: Vec<&Value> = closure.iter().filter(|c| *c != n).filter_map(|c| texts.raw.get(*c)).collect();
@@ -493,7 +546,7 @@ fn main() {
                     perms.insert(n.to_string(), p);
                 }
                 let mut r = report.lock().unwrap();
-                r.count(match style { 1 => "affine_renumberings", 2 => "dense_renumberings", _ => "forced_cross_crate_collision_renumberings" }, 1);
+                r.count(match style { 1 => "affine_renumberings", 2 => "dense_renumberings", 4 => "sibling_swap_renumberings", _ => "forced_cross_crate_collision_renumberings" }, 1);
                 drop(r);
             }
             wd.begin(|| json!({"lane": "clilab", "example": example, "transform": t, "renumbered": renumbered}).to_string());
